@@ -12,6 +12,7 @@ What "the right value" is:
 """
 
 import math
+import os
 
 import numpy as np
 from hypothesis import strategies as st
@@ -45,6 +46,7 @@ LEVEL_NOTE = ("random search over table shapes, orders 2..12, both methods, both
 TECHNIQUE = "property-based testing (Hypothesis) against an extended-precision barycentric oracle"
 
 EPS = lg.EPS
+EPS32 = float(np.finfo(np.float32).eps)
 MU = 3.986004418e14
 FRAMES = ["EME2000", "TOD", "MOD", "TEME", "ITRF", "GCRF"]
 FORMS = ["cartesian", "keplerian", "spherical", "equinoctial", "keplerian_mean"]
@@ -728,6 +730,362 @@ def check_session(case):
                                           "reconfigured" if changed else "fixed"]), ratio=worst)
 
 
+# ------------------------------------------------------------------ variants (other spellings of one ephemeris)
+
+SCALES = ["UTC", "TAI", "TT", "GPS", "TDB", "UT1"]
+ORDER_SPELL = ["int", "np.int64", "np.int32", "positional"]
+METHOD_SPELL = {"lagrange": ["lagrange", "Lagrange", "LAGRANGE", "const"], "linear": ["linear", "Linear", "LINEAR", "const"]}
+CLONES = ["copy.copy", "copy.deepcopy", "pickle", "copy()", "ephem()"]
+
+
+@st.composite
+def variant_case(draw, shard, tier):
+    """One ephemeris, spelled otherwise: dates carrying other time-scale labels (mixed inside the table
+    and in the queries), table handed over as list / tuple / generator, order as a numpy integer or
+    positionally, method in another case, the Ephem cloned (copy, deepcopy, pickle, copy(), ephem())
+    before or after its first use, results overwritten in place by the caller and asked again,
+    tables several days long."""
+    d = D(draw)
+    order = d.pick(2, 3, 4, 5, 7, 8, 12)
+    t = table(d, "ephem", order=order, nmax=18)
+    if d.int(0, 3) == 0:
+        t["h"] = d.u(3600.0, 6 * 3600.0)    # tables of several days
+    n = t["n"]
+    method = d.pick("lagrange", "lagrange", "linear")
+    labels = [d.pick(*SCALES) for _ in range(n)] if d.int(0, 2) else []
+    ops = []
+    for _ in range(d.int(3, 8)):
+        kind = d.pick("query", "query", "query", "node", "scribble", "clone")
+        if kind == "clone":
+            ops.append(dict(op="clone", how=d.pick(*CLONES)))
+        elif kind == "node":
+            ops.append(dict(op="node", i=d.int(0, n - 1), label=d.pick(*SCALES)))
+        elif kind == "scribble":
+            ops.append(dict(op="scribble", how=d.pick("fill", "add", "base")))
+        else:
+            ops.append(dict(op="query", q=query(d, n), label=d.pick(*SCALES) if d.coin() else "UTC"))
+    ops.append(dict(op="query", q=query(d, n), label=d.pick(*SCALES)))
+    return dict(t=t, method=method, vals=unit_coeffs(d, n - 1, 6, [7e6, 7e6, 7e6, 7e3, 7e3, 7e3]),
+                labels=labels, container=d.pick("list", "tuple", "generator"), order_spell=d.pick(*ORDER_SPELL),
+                method_spell=d.int(0, 3), frame=d.pick(*FRAMES), form=d.pick(*FORMS), ops=ops)
+
+
+def labelled_date(d, s, label):
+    """The instant of the UTC date (d, s), carrying another time-scale label."""
+    date = make_date(d, s)
+    return date if label == "UTC" else date.change_scale(label)
+
+
+def build_variant(case, dates, ys):
+    from beyond.orbits import Ephem, StateVector
+
+    svs = [StateVector(list(map(float, y)), dt, case["form"], case["frame"]) for dt, y in zip(dates, ys)]
+    k = case["t"]["order"]
+    order = {"int": k, "np.int64": np.int64(k), "np.int32": np.int32(k), "positional": k}[case["order_spell"]]
+    spell = METHOD_SPELL[case["method"]][case["method_spell"]]
+    if spell == "const":
+        spell = Ephem.LAGRANGE if case["method"] == "lagrange" else Ephem.LINEAR
+    table_ = {"list": list, "tuple": tuple, "generator": iter}[case["container"]](svs)
+    if case["order_spell"] == "positional":
+        return Ephem(table_, spell, order), svs
+    return Ephem(table_, method=spell, order=order), svs
+
+
+def clone(eph, how):
+    import copy
+    import pickle
+
+    if how == "copy.copy":
+        return copy.copy(eph)
+    if how == "copy.deepcopy":
+        return copy.deepcopy(eph)
+    if how == "pickle":
+        return pickle.loads(pickle.dumps(eph))
+    if how == "copy()":
+        return eph.copy()
+    return eph.ephem()
+
+
+def vals_of(sv):
+    """The six numbers of a state vector, whether it owns its buffer (deep copies do) or not."""
+    return np.array(sv.view(np.ndarray), dtype=float)
+
+
+def check_variant(case):
+    t = case["t"]
+    _, ds = abscissae(t)
+    n = t["n"]
+    k = t["order"]
+    method = case["method"]
+    ys = np.cumsum(expand(case["vals"]), axis=0) / 4
+    labels = case["labels"] or ["UTC"] * n
+    dates = [labelled_date(d_, s_, lb) for (d_, s_), lb in zip(ds, labels)]
+    # abscissae = the instants of the dates (Date's TAI-based float MJD - C03 owns the time scales)
+    xs = np.array([dt._mjd for dt in dates])
+    if not np.all(np.diff(xs) > 0):
+        raise RuntimeError("relabelled dates are not increasing")
+    eph, svs = build_variant(case, dates, ys)
+    if str(eph.method).lower() != method or eph.order != k:
+        raise Violation("spelling", f"Ephem(..., method={METHOD_SPELL[method][case['method_spell']]!r}, order="
+                        f"{case['order_spell']}({k})) reports method {eph.method!r}, order {eph.order!r}")
+    worst = 0.0
+    last = None
+    cls = set()
+    for step, op in enumerate(case["ops"]):
+        if op["op"] == "clone":
+            eph = clone(eph, op["how"])
+            cls.add("clone:" + op["how"])
+            if str(eph.method).lower() != method or eph.order != k or len(eph) != n:
+                raise Violation("clone-settings", f"step {step}: the {op['how']} clone of an Ephem with method {method}, "
+                                f"order {k}, {n} points has method {eph.method!r}, order {eph.order!r}, {len(eph)} points",
+                                how=op["how"])
+            continue
+        if op["op"] == "scribble":
+            if last is None:
+                continue
+            res, qdate, saved = last
+            if op["how"] == "fill":
+                res[:] = 12345.678
+            elif op["how"] == "add":
+                res += 1.0e3
+            else:
+                res.view(np.ndarray)[...] = -1.0
+            cls.add("scribbled")
+            again = vals_of(eph.interpolate(qdate))
+            if not np.array_equal(again, saved):
+                raise Violation("result-aliased", f"step {step}: after the caller overwrote a result in place, the "
+                                f"same request gives {again.tolist()} instead of {saved.tolist()}")
+            continue
+        if op["op"] == "node":
+            j = op["i"] % n
+            qdate = labelled_date(*ds[j], op["label"])
+        else:
+            x_utc, dsq = query_x(t, np.array([d_ + s_ / 86400.0 for d_, s_ in ds]), ds, op["q"])
+            qdate = labelled_date(*dsq, op["label"])
+        x = qdate._mjd
+        cls.add("q:" + op["label"])
+        inside = xs[0] <= x <= xs[-1]
+        try:
+            res = eph.interpolate(qdate)
+        except ValueError as exc:
+            if inside:
+                raise Violation("inside-refused", f"step {step}: {exc}")
+            continue
+        if not inside:
+            raise Violation("not-refused", f"step {step}: date outside the table returned a value")
+        if res.date._mjd != x or res.date.scale.name != qdate.scale.name:
+            raise Violation("metadata-date", f"step {step}: result dated {res.date}, query {qdate}")
+        if res.frame.name != case["frame"] or res.form.name != case["form"]:
+            raise Violation("metadata-frame-form", f"step {step}: result in {res.frame.name}/{res.form.name}")
+        got = vals_of(res)
+        hit = np.nonzero(xs == x)[0]
+        if len(hit):
+            cls.add("node-other-label" if qdate.scale.name != labels[hit[0]] else "node-same-label")
+            if not np.array_equal(got, ys[hit[0]]):
+                raise Violation("node-relabelled", f"step {step}: the date of point {hit[0]} ({labels[hit[0]]}) asked as "
+                                f"{qdate} returns {got.tolist()}, the table holds {ys[hit[0]].tolist()}")
+        worst = max(worst, match_interpolant(xs, ys, method, k, x, got,
+                                             f"step {step} ({method}, order {k}, labels {sorted(set(labels))}, query {op['label']})"))
+        last = (res, qdate, got.copy())
+    for j in range(n):
+        if not np.array_equal(vals_of(eph[j]), ys[j]) or eph[j].date._mjd != xs[j]:
+            raise Violation("table-mutated", f"row {j} changed or is out of order after the queries")
+        if not np.array_equal(vals_of(svs[j]), ys[j]) or svs[j].date._mjd != xs[j]:
+            raise Violation("argument-modified", f"the caller's point {j} changed")
+    span = (xs[-1] - xs[0]) >= 1.0
+    return dict(nt=True, cls=["mixed-labels" if case["labels"] else "utc-table", case["container"],
+                              "order:" + case["order_spell"], ">=1day" if span else "<1day"] + sorted(cls), ratio=worst)
+
+
+def clone_settings(facet, case, kind, msg, data):
+    """Ephem.copy() / Ephem.ephem() build the new Ephem without method and order: the clone interpolates
+    with the defaults (lagrange, 8)."""
+    return facet == "variants" and kind == "clone-settings" and data.get("how") in ("copy()", "ephem()")
+
+
+def numpy_order(facet, case, kind, msg, data):
+    """Ephem(order=<numpy integer>) silently falls back to order 8 (isinstance(order, int))."""
+    return facet == "variants" and kind == "spelling" and case.get("order_spell", "").startswith("np.")
+
+
+# ------------------------------------------------------------------ raw_types (containers / dtypes of the raw interpolator)
+
+XKINDS = ["f64", "list", "tuple", "int64", "pyint-list", "f32", "view"]
+YKINDS = ["f64", "list", "int64", "f32", "view", "fortran"]
+
+
+@st.composite
+def raw_case(draw, shard, tier):
+    d = D(draw)
+    k = d.int(2, 8)
+    n = d.int(k, 14)
+    gaps = [d.int(1, 6) for _ in range(n)]
+    return dict(n=n, order=k, method=d.pick("lagrange", "lagrange", "linear"), x0=d.int(-50, 50), gaps=gaps,
+                ncomp=d.pick(1, 3), ys=[[d.int(-999, 999) for _ in range(3)] for _ in range(n)],
+                xkind=d.pick(*XKINDS), ykind=d.pick(*YKINDS),
+                qs=[dict(i=d.int(0, n - 2), e=d.int(0, 8), xt=d.pick("float", "np.float64", "np.float32", "int")) for _ in range(6)])
+
+
+def check_raw(case):
+    """Integer-valued abscissae and data, exactly representable in every dtype: whatever the container
+    or dtype, the interpolant is the one of the float64 values (to float32 accuracy when float32 is
+    involved), exact at the nodes, and the caller's objects are left alone."""
+    n, k, method = case["n"], case["order"], case["method"]
+    xi = np.cumsum([case["x0"]] + case["gaps"][: n - 1]).astype(np.int64)
+    yi = np.array(case["ys"], np.int64)[:, : case["ncomp"]]
+    if case["ncomp"] == 1:
+        yi = yi[:, 0]
+    # data in eighths (exact in float32 too) unless the dtype under test is an integer one
+    xs64, ys64 = xi.astype(float), yi.astype(float) / (1.0 if case["ykind"] == "int64" else 8.0)
+    xk, yk = case["xkind"], case["ykind"]
+    big = np.zeros(2 * n)
+    big[::2] = xs64
+    xs_arg = {"f64": xs64.copy(), "list": xs64.tolist(), "tuple": tuple(xs64.tolist()), "int64": xi.copy(),
+              "pyint-list": [int(v) for v in xi], "f32": xs64.astype(np.float32), "view": big[::2]}[xk]
+    wide = np.zeros((n, 2 * max(1, yi.ndim and (yi.shape[1] if yi.ndim == 2 else 1))))
+    if yi.ndim == 2:
+        wide[:, ::2] = ys64
+        yview = wide[:, ::2]
+    else:
+        w1 = np.zeros(2 * n)
+        w1[::2] = ys64
+        yview = w1[::2]
+    ys_arg = {"f64": ys64.copy(), "list": ys64.tolist(), "int64": yi.copy(), "f32": ys64.astype(np.float32),
+              "view": yview, "fortran": np.asfortranarray(ys64)}[yk]
+    import copy as _copy
+
+    keep_x, keep_y = _copy.deepcopy(xs_arg), _copy.deepcopy(ys_arg)
+    f = make_interp(xs_arg, ys_arg, method, k)
+    single = "f32" in (xk, yk)
+    worst = 0.0
+    for q in case["qs"]:
+        i = q["i"]
+        x = float(xs64[i] + (xs64[i + 1] - xs64[i]) * q["e"] / 8.0)
+        if q["xt"] == "int" and x != int(x):
+            x = float(xs64[i])
+        xq = {"float": x, "np.float64": np.float64(x), "np.float32": np.float32(x), "int": int(x)}[q["xt"]]
+        raw = f(xq)
+        got = np.atleast_1d(np.array(raw, dtype=float))
+        if not np.all(np.isfinite(got)):
+            raise Violation("non-finite", f"xs {xk}, ys {yk}, x {q['xt']}: {got.tolist()}")
+        if isinstance(raw, np.ndarray) and raw.ndim and raw.flags.writeable:
+            # the caller overwrites the result in place and asks again
+            raw[...] = 777.0
+            again = np.atleast_1d(np.array(f(xq), dtype=float))
+            if not np.array_equal(again, got):
+                raise Violation("result-aliased", f"xs as {xk}, ys as {yk}: after the caller overwrote the result at "
+                                f"x={x} in place, the same request gives {again.tolist()} instead of {got.tolist()}")
+        if x in xs64:
+            want = np.atleast_1d(ys64[list(xs64).index(x)])
+            if not np.array_equal(got, want):
+                raise Violation("node-dtype", f"xs as {xk}, ys as {yk}, x as {q['xt']}({x}): node value {got.tolist()}, "
+                                f"the table holds {want.tolist()}")
+            continue
+        if method == "linear":
+            want, scale = linear_value(xs64, ys64, x)
+            tol = 32 * (EPS32 if single or q["xt"] == "np.float32" else EPS) * np.atleast_1d(scale) + 1e-300
+            r = float(np.max(np.abs(got - np.atleast_1d(want)) / tol))
+        else:
+            r = math.inf
+            for s_, want, cond in lagrange_candidates(xs64, ys64, k, x):
+                tol = fp_tol(k, np.atleast_1d(cond)) * ((EPS32 / EPS) if single or q["xt"] == "np.float32" else 1.0)
+                r = min(r, float(np.max(np.abs(got - np.atleast_1d(want)) / tol)))
+        worst = max(worst, r)
+        if r > 1:
+            raise Violation("value-dtype", f"{method} order {k}: xs as {xk}, ys as {yk}, x as {q['xt']}({x}) gives "
+                            f"{got.tolist()}, not the interpolant of the same numbers as float64 ({r:.3g} x tol)", ratio=r)
+    same = lambda a, b: (np.array_equal(np.asarray(a), np.asarray(b)) and type(a) is type(b)
+                         and getattr(a, "dtype", None) == getattr(b, "dtype", None))
+    if not same(xs_arg, keep_x) or not same(ys_arg, keep_y):
+        raise Violation("argument-modified", f"Interp changed the caller's xs ({xk}) or ys ({yk})")
+    return dict(nt=True, cls=["xs:" + xk, "ys:" + yk, method], ratio=worst if not single else 0.0)
+
+
+# ------------------------------------------------------------------ leap seconds (real EOP)
+
+
+def leap_mjds():
+    """MJD (0h UTC) of the days that start right after a leap second, 1973..2017, from tai-utc.dat."""
+    from .. import env
+
+    out = []
+    with open(os.path.join(env.repo(), "tests", "data", "pole", "tai-utc.dat")) as fh:
+        for line in fh:
+            if line.strip():
+                mjd = int(float(line.split()[4]) - 2400000.5)
+                if 41700 <= mjd <= 57760:
+                    out.append(mjd)
+    return out[1:]
+
+
+@st.composite
+def leap_case(draw, shard, tier):
+    d = D(draw)
+    order = d.pick(2, 3, 5, 8)
+    t = table(d, "ephem", order=order, nmax=16)
+    t["h"] = d.pick(60.0, 300.0, 900.0) if d.coin() else d.u(130.0, 1200.0)
+    return dict(t=t, leap=d.int(0, 99), where=d.pick("across", "across", "across", "before", "after", "year-turn"),
+                shift=d.u(0.0, 1.0), method=d.pick("lagrange", "lagrange", "linear"),
+                labels=[d.pick("UTC", "UTC", "TAI", "TT", "GPS", "UT1", "TDB") for _ in range(t["n"])] if d.coin() else [],
+                vals=unit_coeffs(d, order - 1, 6, [7e6, 7e6, 7e6, 7e3, 7e3, 7e3]),
+                qs=[dict(f=d.u(0.0, 1.0), label=d.pick(*SCALES)) for _ in range(d.int(3, 6))])
+
+
+def check_leap(case):
+    """Real IERS tables: an ephemeris whose UTC-labelled points straddle a leap second (or a plain
+    midnight / turn of the year).  The data are a polynomial of the instant: an interpolator working on
+    the labels' clock readings instead of the instants is 1 s (7 km) off on one side of the leap."""
+    from beyond.dates import Date
+    from beyond.orbits import Ephem, StateVector
+
+    t = case["t"]
+    n, k, h = t["n"], t["order"], t["h"]
+    leaps = leap_mjds()
+    day = leaps[case["leap"] % len(leaps)]
+    if case["where"] == "year-turn":
+        day = [m for m in (50083, 51544, 53371, 55562, 57388)][case["leap"] % 5]   # 1 January, no leap second
+    jit = t["jit"] or [0.0] * n
+    centre = {"across": n / 2, "before": n + 1, "after": -2, "year-turn": n / 2}[case["where"]]
+    dates = []
+    for i in range(n):
+        tt = h * (i + jit[i] - centre + case["shift"])
+        if abs(tt) < 120.0:                      # beyond documents no handling of the leap second itself
+            tt = math.copysign(120.0 + abs(tt), tt if tt else 1.0)
+        dd, ss = split(day, tt)
+        date = Date(int(dd), float(ss))
+        if case["labels"] and case["labels"][i] != "UTC":
+            date = date.change_scale(case["labels"][i])
+        dates.append(date)
+    xs = np.array([dt._mjd for dt in dates])
+    if not np.all(np.diff(xs) > 0):
+        return dict(nt=False, cls=["degenerate"], ratio=0.0)
+    p = poly_table(t, xs, expand(case["vals"]))
+    ys = p(xs) if case["method"] == "lagrange" else expand(dict(case["vals"], rows=n))
+    eph = Ephem([StateVector(list(map(float, y)), dt, "cartesian", "EME2000") for dt, y in zip(dates, ys)],
+                method=case["method"], order=k)
+    worst = 0.0
+    for q in case["qs"]:
+        x = float(xs[0] + q["f"] * (xs[-1] - xs[0]))
+        # a date for that instant: TAI-labelled date of the same float MJD, relabelled
+        qd = Date(int(math.floor(x)), float((x - math.floor(x)) * 86400.0), scale="TAI")
+        if q["label"] != "TAI":
+            qd = qd.change_scale(q["label"])
+        xq = qd._mjd
+        if not (xs[0] <= xq <= xs[-1]):
+            continue
+        got = np.asarray(eph.interpolate(qd).base, float)
+        worst = max(worst, match_interpolant(xs, ys, case["method"], k, xq, got,
+                                             f"table around MJD {day} ({case['where']}), query {qd}"))
+    return dict(nt=case["where"] in ("across", "year-turn"), cls=[case["where"], "mixed" if case["labels"] else "utc"],
+                ratio=worst)
+
+
+def _setup_real(shard):
+    from .. import env
+
+    env.eop("real")
+
+
 # ------------------------------------------------------------------ registry
 
 
@@ -742,7 +1100,8 @@ def linear_node_rounding(facet, case, kind, msg, data):
     return facet == "node_exact" and kind == "node-linear" and case.get("method") == "linear"
 
 
-FINDINGS = {"C09/linear-node-rounding": linear_node_rounding}
+FINDINGS = {"C09/linear-node-rounding": linear_node_rounding, "C09/clone-loses-settings": clone_settings,
+            "C09/numpy-order-ignored": numpy_order}
 
 FACETS = [
     Facet("node_exact", node_case, check_node_exact, setup=_setup,
@@ -761,4 +1120,13 @@ FACETS = [
     Facet("session", session_case, check_session, setup=_setup,
           rule="every case: 3-9 operations on one Ephem (queries, order / method changes)",
           quick=(8, 350), thorough=(16, 3500)),
+    Facet("variants", variant_case, check_variant, setup=_setup,
+          rule="every case: the same ephemeris under another spelling (labels, container, order type, clone, scribble)",
+          quick=(8, 300), thorough=(16, 3000)),
+    Facet("raw_types", raw_case, check_raw, setup=_setup,
+          rule="every case: xs / ys / x handed over in another container or dtype",
+          quick=(4, 400), thorough=(8, 4000)),
+    Facet("leap_second", leap_case, check_leap, setup=_setup_real,
+          rule="the table straddles a leap second or the turn of a year (real IERS tables)",
+          quick=(4, 250), thorough=(8, 2500)),
 ]
